@@ -74,6 +74,37 @@ def gen(tier, rng):
             ops.append(op_token("redirect", k=rng.randint(0, 1)))
         rng.shuffle(ops)
         out.append((line(ops), "state-combination"))
+    # literals that are new in the source (gen/srclit.py): new words as secret, redirect path, endpoint path / query / host label;
+    # new integers as secret and URL lengths - inside sequences that set everything, in several orders
+    from gen import srclit as SL
+    extra = []
+    for w in SL.words():
+        tok = "".join(c for c in w if c.isalnum() or c in "-_.") or "x"
+        extra.append((w, "https://client/" + tok + "?" + tok + "=1", tok))
+    for k in SL.sizes(limit=100000, lo=1):
+        extra.append(("s" * k, "https://client/cb?x=" + "r" * max(k - 20, 0), "p" * max(k - 30, 1)))
+    saved = (list(SECRETS), list(REDIRS), {e: list(v) for e, v in URLS.items()})
+    try:
+        for (sec, red, tok) in extra:
+            SECRETS[:] = [sec, "other-" + sec]
+            REDIRS[:] = [red, "https://client/other"]
+            for e in "ATDIR":
+                base = saved[2][e][0]
+                URLS[e] = [base + "/" + tok, base + "?" + tok + "=1", base.replace("://", "://" + tok.replace("_", "-").strip("-.")[:40].lower() + ".") if tok.replace("_", "-").strip("-.")[:40].isascii() else base]
+            for rep in range(6):
+                ops = []
+                for ep in "ATDIR":
+                    ops.append(op_token(rng.choice(["set", "some"]), ep, k=rng.randint(0, 2)))
+                ops += [op_token("secret", k=0), op_token("redirect", k=0), op_token(rng.choice(["basic", "body"]))]
+                if rep % 2:
+                    ops += [op_token("secret", k=1), op_token("secret", k=0), op_token("redirect", k=1), op_token("redirect", k=0)]
+                rng.shuffle(ops)
+                out.append((line(ops), "source-literal"))
+    finally:
+        SECRETS[:] = saved[0]
+        REDIRS[:] = saved[1]
+        for e in "ATDIR":
+            URLS[e] = saved[2][e]
     n = 1500 if tier == "quick" else 50000
     for _ in range(n):
         L = rng.randint(3, 10)
